@@ -27,9 +27,12 @@ func chance(t *rapid.T, label string, percent int) bool {
 // genRule draws one rule level.  used: placeholder names taken by the parents.
 func genRule(t *rapid.T, depth int, used map[string]bool) Rule {
 	top := depth == 0
-	nreq := rapid.IntRange(1, 2).Draw(t, "nreq")
+	nreq := 1
+	if chance(t, "two", 75) {
+		nreq++
+	}
 	if top && chance(t, "long", 25) {
-		nreq = 3
+		nreq++
 	}
 	var req, phs []string
 	for i := 0; i < nreq; i++ {
@@ -240,7 +243,7 @@ func genRequest(t *rapid.T, frs []Flat) (string, int, []string) {
 	idx := rapid.IntRange(0, len(frs)-1).Draw(t, "rule")
 	f := frs[idx]
 	plen := len(f.Req)
-	if len(f.Req) > 1 && chance(t, "prefix", 45) {
+	if len(f.Req) > 1 && chance(t, "prefix", 75) {
 		plen = rapid.IntRange(1, len(f.Req)-1).Draw(t, "plen")
 	}
 	bound := map[string]string{}
@@ -284,7 +287,7 @@ func genSetValue(t *rapid.T, c *Case, idx int, suffix []string) interface{} {
 // GenBase draws view, schema choice and seeds.
 func GenBase(t *rapid.T) Case {
 	c := Case{Rules: genRules(t)}
-	c.Typed = chance(t, "typed", 40)
+	c.Typed = rapid.Bool().Draw(t, "typed")
 	if c.Typed {
 		n := rapid.IntRange(1, 4).Draw(t, "nleaf")
 		for i := 0; i < n; i++ {
@@ -318,7 +321,7 @@ func GenBase(t *rapid.T) Case {
 func GenHistory(t *rapid.T, withTx bool, maxOps int) Case {
 	c := GenBase(t)
 	frs := Flatten(c.Rules)
-	n := rapid.IntRange(4, maxOps).Draw(t, "nops")
+	n := rapid.IntRange(6, maxOps).Draw(t, "nops")
 	for i := 0; i < n; i++ {
 		op := Op{}
 		if withTx {
@@ -328,9 +331,9 @@ func GenHistory(t *rapid.T, withTx bool, maxOps int) Case {
 		switch {
 		case k < 45:
 			op.Kind = "set"
-		case k < 65:
+		case k < 62:
 			op.Kind = "get"
-		case k < 78:
+		case k < 74:
 			op.Kind = "unset"
 		case withTx && k < 96:
 			op.Kind = "commit"
@@ -357,6 +360,13 @@ func GenHistory(t *rapid.T, withTx bool, maxOps int) Case {
 			}
 		}
 		c.Ops = append(c.Ops, op)
+	}
+	if withTx && chance(t, "commitboth", 60) {
+		first := rapid.IntRange(0, 1).Draw(t, "firstcommit")
+		c.Ops = append(c.Ops, Op{Tx: first, Kind: "commit"}, Op{Tx: 1 - first, Kind: "commit"})
+		if chance(t, "readback", 50) {
+			c.Ops = append(c.Ops, Op{Tx: first, Kind: "newtx"}, Op{Tx: first, Kind: "get"})
+		}
 	}
 	return c
 }
